@@ -87,6 +87,19 @@ def static_root(node):
     core = node
     while core["k"] in ("dimap", "map", "contramap", "closure", "partial"):
         core = core["inner"]
+    if core["k"] == "mix":
+        # genjax.mix IS a static function: categorical at "mixture_component",
+        # then the switch over the components at "component_sample"
+        return {
+            "k": "static",
+            "ptypes": [],
+            "stmts": [
+                {"addr": ["mixture_component"], "callee": {"k": "dist", "d": "categorical", "n": len(core["branches"])}, "args": []},
+                {"addr": ["component_sample"], "callee": {"k": "switch", "branches": core["branches"], "out": core["out"]}, "args": []},
+            ],
+            "ret": ["v", 1],
+            "out": core["out"],
+        }
     return core if core["k"] == "static" else None
 
 
@@ -264,6 +277,8 @@ def profile_for(pid, tier):
         G["root_kinds"] = {"switch": 5, "or_else": 2, "mix": 2, "static": 1, "vmap": 1}
         P["oob_index"] = 0.25
         P["argchange"] = 0.7
+        P["undo_after"] = {"update": 0.5, "static_edit": 0.5, "empty_edit": 0.3}
+        P["ops"].update({"update": 7, "static_edit": 2, "empty_edit": 2})
     elif pid == "C14":
         G["root_kinds"] = {"mask": 5, "vmap": 2, "static": 2}
         G["kinds"]["mask"] = 6
@@ -292,7 +307,8 @@ def profile_for(pid, tier):
     elif pid == "C06":
         P["ops"].update({"undo": 8, "update": 6, "regenerate": 4, "index_edit": 5, "static_edit": 2})
         G["scan_editable"] = 0.6
-        G["kinds"].update({"scan": 5, "vmap": 4, "mask": 3})
+        G["kinds"].update({"scan": 5, "vmap": 4, "mask": 3, "switch": 5, "or_else": 2, "mix": 2})
+        P["argchange"] = 0.55
         P["undo_after"] = {"static_edit": 0.6, "index_edit": 0.5, "update": 0.3, "regenerate": 0.3}
     elif pid == "C07":
         P["ops"].update({"regenerate": 9, "undo": 2})
